@@ -124,6 +124,9 @@ def run(repo, rep, tier):
         "weighted mean/variance of those data has (opposite infinities -> NaN, any non-finite -> NaN variance). The in-range index arithmetic is opaque: that floor(...) picks the numerically right "
         "bucket for every float is NOT decided, nor is what user quantity functions return."
     )
+    rep.extra["explanation"] += " " + (
+        'Later additions: (R2.4) float-class interpretation of Average/Deviate.fill over all (state class x datum class) pairs; (R2.5) numeric Bag keys are NaN-normalised; Stack is also explored with descending thresholds.'
+    )
     rep.not_decided += [
         "that the in-range index arithmetic selects the right bucket for every float", "order-independence of floating-point sums",
         "what user quantity functions return",
